@@ -1,5 +1,8 @@
 import UsualProofs.C12.Room
 /-! Every function of mbuf.h / mbuf.c preserves the invariant, for all 32-bit arguments. -/
+set_option linter.unusedSimpArgs false
+set_option linter.unusedVariables false
+
 namespace UsualProofs.C12
 open Usual.C12
 
